@@ -84,7 +84,7 @@ func c10Compare(c *core.Ctx, src []byte, v5, v7, tag string) bool {
 	}
 	fa, fb := obs.Fingerprint(a.Root, false), obs.Fingerprint(b.Root, false)
 	if fa != fb {
-		c.Violation("grammars|tree|"+fpSig(fa, fb)+tag, fmt.Sprintf("trees under %s and %s differ: %s", v5, v7, obs.FirstDiff(fa, fb)), w)
+		c.Violation("grammars|tree|"+obs.DiffPath(a.Root, b.Root)+tag, fmt.Sprintf("trees under %s and %s differ: %s", v5, v7, obs.FirstDiff(fa, fb)), w)
 		return false
 	}
 	return true
